@@ -7,6 +7,7 @@ import (
 	"errors"
 	"fmt"
 	"hash"
+	"os"
 	"sort"
 	"testing"
 	"testing/synctest"
@@ -17,6 +18,8 @@ import (
 	"github.com/orbs-network/lean-helix-go/spec/types/go/primitives"
 	"github.com/orbs-network/lean-helix-go/verifhook"
 )
+
+var eagerTrace = os.Getenv("SIM_EAGER_TRACE") != ""
 
 type hv struct{ h, v uint64 }
 
@@ -186,9 +189,12 @@ type Node struct {
 	burstDone     bool
 	spiStep       int
 	dueTrigger    *hv
+	logYieldIn    int
+	simLogger     bool
 	dueStep       int
 	spiCalls      int
 	syncedTo      map[uint64]bool
+	inboxUnknown  bool
 	inbox         []*Msg // messages handed to the main loop and not yet taken by the (controlled) worker
 	curMsg        *Msg   // the message the worker is processing
 	wm            hv     // model of the context watermark caused by elections / syncs handed to the main loop
@@ -265,6 +271,7 @@ type World struct {
 	comms    map[uint64][]interfaces.CommitteeMember
 	start    time.Time
 	now      time.Duration
+	slept    time.Duration // total the harness itself slept: the clock may not be anywhere else
 	seq      uint64
 	step     int
 	flights  []*Flight
@@ -310,6 +317,9 @@ func (w *World) ev(format string, args ...interface{}) {
 	w.hasher.Write([]byte{'\n'})
 	if w.tracing {
 		w.trace = append(w.trace, fmt.Sprintf("%6d t=%-10v %s", w.seq, w.now, s))
+	}
+	if eagerTrace {
+		fmt.Fprintf(os.Stderr, "%6d t=%-10v %s\n", w.seq, w.now, s)
 	}
 }
 
@@ -464,6 +474,9 @@ func (w *World) startNode(n *Node) {
 		KeyManager:    &KeyManager{w, n.idx},
 		Storage:       n.st,
 	}
+	if n.simLogger {
+		cfg.Logger = &SimLogger{n}
+	}
 	if n.useRealTimer {
 		n.realTrig = NewRealTrigger(n)
 		cfg.OverrideElectionTrigger = n.realTrig
@@ -479,6 +492,7 @@ func (w *World) startNode(n *Node) {
 	} else {
 		n.ctrl = nil
 	}
+	n.inboxUnknown = false
 	n.inbox, n.curMsg, n.wm, n.maxSync, n.updates, n.shuttingDown, n.dueTrigger = nil, nil, hv{}, -1, nil, false, nil
 	n.ctx, n.cancel = context.WithCancel(context.Background())
 	n.lh = leanhelix.NewLeanHelix(cfg, n.onCommit, n.onNewRound)
@@ -495,7 +509,8 @@ func (w *World) stopNode(n *Node) {
 	n.alive = false
 	w.ev("stop n%d", n.idx)
 	n.cancel()
-	w.releaseAllGates(n)
+	// the loops first come to rest on the cancellation (contexts shut down), only then do calls that ignore their
+	// context return: otherwise the worker would race the main loop's shutdown
 	w.drainNode(n)
 	// drop what was in flight to it
 	keep := w.flights[:0]
